@@ -89,7 +89,7 @@ def run(pid, tier, families, t0, extra_assume=(), level="model_checking", strict
         res = C.proc_map(hp, (worker_for or {}).get(name) or worker or work, cases, chunk=300)
         for c, x in zip(cases, res):
             stats["cases"] += 1
-            if c["expect"]["k"] == "ok" and len(okprogs) < 3000 and stats["cases"] % 7 == 0:
+            if c["expect"]["k"] in ("ok", "fail") and len(okprogs) < 6000 and stats["cases"] % 5 == 0:
                 okprogs.append(c["prog"])
             st = x["status"]
             if st == "toolerr":
@@ -134,6 +134,83 @@ def run(pid, tier, families, t0, extra_assume=(), level="model_checking", strict
     return code
 
 
+def trace_leg(tier, rep, stats, okprogs, gd_tag="c01t"):
+    """impl -> spec: recorded executions of the real VM must be behaviours of VM.tla (VMTrace.tla)"""
+    from . import render as R
+    hp = C.ensure_harness()
+    import copy
+    import random
+    texts = []
+    pool = list(okprogs)
+    random.Random(C.seed()).shuffle(pool)
+    for p in pool[:300 if tier == "quick" else 3000]:
+        try:
+            texts.append(R.program(p))
+        except R.Unrenderable:
+            pass
+    h = C.Harness(hp)
+    try:
+        recorded = P.record_traces(h, texts)
+    finally:
+        h.close()
+    gd = C.gen_dir(gd_tag)
+    # binding demonstration (DESIGN §7.1): one logged field altered / one event removed must be rejected
+    demo = [x for x in recorded if sum(1 for r in x[1] if r["ev"] == "op") >= 4][:1]
+    if demo:
+        bad1 = copy.deepcopy(demo[0])
+        ops = [r for r in bad1[1] if r["ev"] == "op"]
+        ops[len(ops) // 2]["sl"] += 1
+        bad2 = copy.deepcopy(demo[0])
+        victim = [i for i, r in enumerate(bad2[1]) if r["ev"] == "op"][2]
+        del bad2[1][victim]
+        for name, bad in (("altered stack length", bad1), ("removed event", bad2)):
+            _, rj, _ = P.validate_traces([bad], gd)
+            if not rj:
+                raise C.ToolError("VMTrace.tla accepted a corrupted trace (%s): the trace specification is vacuous" % name)
+        stats["vm_trace_binding_demo"] = "corrupted traces rejected (altered sl; removed event)"
+    n, rejections, states = P.validate_traces(recorded, gd)
+    stats["vm_traces_recorded"] = len(recorded)
+    stats["vm_traces_accepted"] = n
+    stats["vm_trace_events"] = sum(len(r) for _, r in recorded)
+    stats["vm_trace_states"] = states
+    for r in rejections:
+        rep.disagree({"leg": "vmtrace", "text": r["text"], "detail": r["reject"]}, key="vmtrace-rejected")
+
+
+THOROUGH = [
+    ("ops1", {"Fam": "<- FamOps", "LitPool": "<- LitsSmall", "Names": "<- Names2", "MaxN": "4", "MaxStmts": "1"}, None),
+    ("ops2", {"Fam": "<- FamOps", "LitPool": "<- Lits3", "Names": "<- Names2", "BinOps": "<- OpsAll", "MaxN": "3",
+              "MaxStmts": "2"}, None),
+    ("arith", {"Fam": "<- FamOps", "LitPool": "<- LitsInt", "Names": "<- Names1", "BinOps": "<- OpsArith", "MaxN": "7",
+               "MaxD": "4", "MaxStmts": "1"}, None),
+    ("nums", {"Fam": "<- FamOps", "LitPool": "<- LitsNum", "Names": "<- Names1", "BinOps": "<- OpsNum",
+              "MaxN": "5", "MaxStmts": "1"}, None),
+    ("bools", {"Fam": "<- FamOps", "LitPool": "<- LitsBool", "Names": "<- Names1", "BinOps": "<- OpsBoolEq",
+               "MaxN": "7", "MaxD": "4", "MaxStmts": "1", "Ill0": "1"}, None),
+    ("data", {"Fam": "<- FamData", "LitPool": "<- Lits3", "Names": "<- Names1", "BinOps": "<- Ops2",
+              "TyNames": "<- TyAll", "Prelude": "<- PreData", "MaxN": "4", "MaxStmts": "1"}, None),
+    ("select", {"Fam": "<- FamSelect", "LitPool": "<- LitsSel", "Names": "<- Names1", "BinOps": "<- Ops2",
+                "MaxN": "5", "MaxStk": "4", "MaxStmts": "1"}, None),
+    ("call", {"Fam": "<- FamCallPre", "LitPool": "<- Lits3", "Names": "<- Names1", "BinOps": "<- OpsFew",
+              "Prelude": "<- PreFunc", "MaxN": "5", "MaxStk": "3", "MaxStmts": "1"}, None),
+    ("foppre", {"Fam": "<- FamFopPre", "LitPool": "<- Lits3", "Names": "<- Names1", "Prelude": "<- PreFop",
+                "MaxN": "4", "MaxStk": "3", "MaxStmts": "2"}, None),
+    ("misc", {"Fam": "<- FamMisc", "LitPool": "<- LitsFmt", "Names": "<- Names1", "BinOps": "<- Ops2",
+              "TyNames": "<- TySome", "MaxN": "4", "MaxStk": "3", "MaxStmts": "1"}, None),
+    ("cast", {"Fam": "<- FamCast", "LitPool": "<- LitsCast", "Names": "<- Names1", "BinOps": "<- Ops2",
+              "MaxN": "4", "MaxStmts": "1"}, None),
+    ("moddef", {"Fam": "<- FamModDef", "LitPool": "<- Lits2", "Names": "<- Names2", "BinOps": "<- Ops2",
+                "FldNames": "<- Flds2", "MaxN": "6", "MaxStk": "2", "MaxCtx": "2", "MaxStmts": "2",
+                "MaxModStmts": "1"}, None),
+    ("dotuse", {"Fam": "<- FamDotUse", "LitPool": "<- Lits2", "Names": "<- Names1", "BinOps": "<- Ops2",
+                "Prelude": "<- PreDot", "MaxN": "5", "MaxStk": "3", "MaxStmts": "1"}, None),
+    ("sim", {"Fam": "<- FamSim", "LitPool": "<- LitsMix", "Names": "<- NamesTop", "BinOps": "<- OpsAll",
+             "Prelude": "<- PreSim", "MaxN": "12", "MaxD": "6", "MaxStk": "4", "MaxCtx": "3", "MaxStmts": "12",
+             "MaxModStmts": "2", "Ill0": "2"}, (60000, 160)),
+]
+
+
 def main(tier, replay=None):
     t0 = time.time()
-    return run(PID, tier, QUICK, t0)
+    fams = QUICK if tier == "quick" else THOROUGH
+    return run(PID, tier, fams, t0, after=lambda rep, stats, okprogs: trace_leg(tier, rep, stats, okprogs))
